@@ -372,11 +372,49 @@ unsafe fn path_of(p: *const libc::c_char) -> Option<String> {
     }
 }
 
+/// Host files (anything outside the simulated disk) that the code under test asks for while the
+/// current thread is a simulated party are an input of that party, like environment variables:
+/// the path is recorded as "file:<path>" (discovery); for a party that has the entry on its flip
+/// list the file reads as absent if it really exists and as an empty file if it does not.
+/// Returns Some(true) = answer "absent", Some(false) = answer "present and empty", None = forward.
+unsafe fn host_path_policy(path: *const libc::c_char) -> Option<bool> {
+    if path.is_null() {
+        return None;
+    }
+    let policy = PARTY_ENV.try_with(|e| e.try_borrow().ok().and_then(|b| b.clone())).ok().flatten()?;
+    let name = format!("file:{}", String::from_utf8_lossy(CStr::from_ptr(path).to_bytes()));
+    // what std itself opens (backtraces of caught panics, thread set-up) is not the code under test
+    if name.starts_with("file:/proc/self/") || name.starts_with("file:/usr/lib/debug") || name == "file:/dev/null" || name.contains("/garble-sim") || name.contains("/.build-id/") {
+        return None;
+    }
+    let flipped = policy.iter().any(|f| *f == name);
+    if let Ok(mut q) = ENV_QUERIED.lock() {
+        q.insert(name);
+    }
+    if !flipped {
+        return None;
+    }
+    let exists = libc::syscall(libc::SYS_faccessat, libc::AT_FDCWD, path, libc::F_OK) == 0;
+    Some(exists)
+}
+
+unsafe fn host_open_flipped(absent: bool) -> i32 {
+    if absent {
+        set_errno(libc::ENOENT);
+        -1
+    } else {
+        libc::syscall(libc::SYS_openat, libc::AT_FDCWD, b"/dev/null\0".as_ptr(), libc::O_RDONLY, 0) as i32
+    }
+}
+
 #[no_mangle]
 pub unsafe extern "C" fn open64(path: *const libc::c_char, flags: i32, mode: libc::mode_t) -> i32 {
     CALLS_OPEN.fetch_add(1, Ordering::Relaxed);
     if let Some(p) = path_of(path) {
         return sim_open(&p, flags);
+    }
+    if let Some(absent) = host_path_policy(path) {
+        return host_open_flipped(absent);
     }
     libc::syscall(libc::SYS_openat, libc::AT_FDCWD, path, flags | libc::O_LARGEFILE, mode as libc::c_uint) as i32
 }
@@ -386,6 +424,9 @@ pub unsafe extern "C" fn open(path: *const libc::c_char, flags: i32, mode: libc:
     CALLS_OPEN.fetch_add(1, Ordering::Relaxed);
     if let Some(p) = path_of(path) {
         return sim_open(&p, flags);
+    }
+    if let Some(absent) = host_path_policy(path) {
+        return host_open_flipped(absent);
     }
     libc::syscall(libc::SYS_openat, libc::AT_FDCWD, path, flags, mode as libc::c_uint) as i32
 }
@@ -734,6 +775,16 @@ pub unsafe extern "C" fn statx(dirfd: i32, path: *const libc::c_char, flags: i32
             }
         };
     }
+    if !empty {
+        if let Some(absent) = host_path_policy(path) {
+            if absent {
+                set_errno(libc::ENOENT);
+                return -1;
+            }
+            fill_statx(buf, 0, 0);
+            return 0;
+        }
+    }
     libc::syscall(libc::SYS_statx, dirfd, path, flags, mask, buf) as i32
 }
 
@@ -778,6 +829,14 @@ unsafe fn stat_path(path: *const libc::c_char, buf: *mut libc::stat, nofollow: b
                 -1
             }
         };
+    }
+    if let Some(absent) = host_path_policy(path) {
+        if absent {
+            set_errno(libc::ENOENT);
+            return -1;
+        }
+        fill_stat(buf, 0, 0);
+        return 0;
     }
     libc::syscall(libc::SYS_newfstatat, libc::AT_FDCWD, path, buf, if nofollow { libc::AT_SYMLINK_NOFOLLOW } else { 0 }) as i32
 }
